@@ -135,7 +135,10 @@ def run(chk):
             dist["unmanaged"] = dist.get("unmanaged", 0) + 1
             continue
         minb, maxb, spl, RB, des, R0 = (int(c[k]) for k in ("minb", "maxb", "spl", "RB", "desired", "R0"))
-        mlines = [r["ops"][0], "cfg %d %d %d %d %d %d" % (minb, maxb, spl, RB, des, R0)]
+        # the model derives its budgets from the configuration itself (Cfg.ofRates = vorbis_bitrate_init), not from the manager's state
+        bias = float(cop[8])
+        mlines = [r["ops"][0], "cfgr %d %d %d %d %d %d %d %d" % (want_min, want_max, int(c["rate"]), int(c["bs0"]), int(c["bs1"]), want_rb,
+                                                                  int(want_rb * bias), int(want_rb * bias))]
         exc, dfc, Rs = [], [], []
         from fractions import Fraction
         rate, bs0, bs1, maxrate, minrate = (int(c[k]) for k in ("rate", "bs0", "bs1", "maxrate", "minrate"))
@@ -186,7 +189,12 @@ def run(chk):
     for k, mr in enumerate(mres):
         r = res[idx[k]]
         cbl = [kv(l) for l in r["c"] if l.startswith("blk W=")]
-        mouts = (mr["m"] or [])[1:]
+        mouts = [l for l in (mr["m"] or [])[1:] if not l.startswith("cfgr ")]
+        mcfg = [l for l in (mr["m"] or [])[1:] if l.startswith("cfgr ")]
+        ccfg = kv([l for l in r["c"] if l.startswith("cfg ")][0])
+        if mcfg and (kv(mcfg[0]).get("minb"), kv(mcfg[0]).get("maxb"), kv(mcfg[0]).get("spl")) != (ccfg.get("minb"), ccfg.get("maxb"), ccfg.get("spl")):
+            dis.append(({"ops": r["ops"][:40], "c": r["c"][:3], "m": mcfg}, (0, "budgets minb=%s maxb=%s spl=%s" % (ccfg.get("minb"), ccfg.get("maxb"), ccfg.get("spl")), mcfg[0])))
+            continue
         if mr["m"] is None or len(mouts) != len(cbl):
             dis.append(({"ops": r["ops"][:40], "c": r["c"][:40], "m": (mr["m"] or [])[:40]}, (0, "%d blocks" % len(cbl), "%d model answers" % len(mouts))))
             continue
